@@ -465,6 +465,20 @@ func c14Handler(c *cx) {
 		}
 	}
 	c.r.Check(id, f, "lookup order", "E-sym: top-level elements are matched by exact name, then local name only, then namespace only: "+strings.Join(want, " -> "), f.Pos(), okAll, ev.fail)
+	// ... and by nothing else: the evaluated sequence is every look-up of the
+	// pattern table in the function (a look-up of the zero name after the
+	// routers makes a handler registered only to advertise features a
+	// catch-all for every element nothing else matches)
+	nIdx := 0
+	f.WalkBody(func(nd ast.Node) bool {
+		if ix, ok := nd.(*ast.IndexExpr); ok {
+			if k, _ := f.FieldClass(ix.X); k == "mux.ServeMux.patterns" {
+				nIdx++
+			}
+		}
+		return true
+	})
+	c.r.Check(id, f, "look-ups of the pattern table", "K: the three look-ups of the evaluated sequence are the only ones in Handler", f.Pos(), nIdx == len(ev.lookups), fmt.Sprintf("%d look-ups of ServeMux.patterns in the function, %d in the evaluated sequence: an element that matches no pattern is still given to a handler", nIdx, len(ev.lookups)))
 	// routers for stanzas of the stream's namespace
 	routes := map[string]string{"mux.iqStanza": "iqRouter", "mux.msgStanza": "msgRouter", "mux.presStanza": "presenceRouter"}
 	seen := map[string]bool{}
